@@ -5,6 +5,10 @@
 //! Oracle: records antctl can produce are accepted, install and upgrade parse to the same `Opt`,
 //! and every setting of the record shows up in the parsed `Opt` as intended.
 //! Line protocol: `accept k=v …` (same records as component `upgrade`).
+//! `lexprobe k=v …`: records with one value that is NOT lex-safe (starts with `-`, a `,` inside a list
+//! element, a subcommand word as a value …): what the real clap makes of the strings the manager writes
+//! for them, against the Lean tokeniser (`lex`). Accepted-but-differently-interpreted for a value antctl
+//! itself can be given is an oracle failure; rejection is the known finding K-t-hyphen-value.
 #[path = "upgrade/real.rs"]
 mod real;
 
@@ -190,6 +194,75 @@ fn intended_converted(rec: &Rec, root: &Path, port_override: Option<String>) -> 
     v
 }
 
+/// options whose value antctl prints from a typed value (`u8`/`u16`/`usize`/`Ipv4Addr`/`SocketAddr`/`Address`):
+/// the printed text starts with a decimal digit (Lean: `WellFormatted`, `digitSources`)
+const DIGIT_FLAGS: &[&str] = &[
+    "--rpc",
+    "--network-id",
+    "--ip",
+    "--port",
+    "--metrics-server-port",
+    "--max-archived-log-files",
+    "--max-log-files",
+    "--rewards-address",
+    "--payment-token-address",
+    "--data-payments-address",
+];
+
+/// first typed value of an argument list that does not print as its type does
+fn typed_value_violation(args: &[String]) -> Option<String> {
+    for w in args.windows(2) {
+        if DIGIT_FLAGS.contains(&w[0].as_str()) && !w[1].chars().next().map(|c| c.is_ascii_digit()).unwrap_or(false) {
+            return Some(format!("{} {}", w[0], w[1]));
+        }
+        if w[0] == "--log-format" && w[1] != "json" && w[1] != "default" {
+            return Some(format!("{} {}", w[0], w[1]));
+        }
+    }
+    None
+}
+
+/// (family, key, value, antctl itself can be given this value): one value that is not lex-safe
+const LEX_PROBES: &[(&str, &str, &str, bool)] = &[
+    ("owner-hyphen", "options.owner", "s:-x", true),
+    ("owner-help", "options.owner", "s:-h", true),
+    ("owner-hyphen-number", "options.owner", "s:-1", true),
+    ("owner-looks-like-flag", "options.owner", "s:--first", true),
+    ("owner-looks-like-own-flag", "options.owner", "s:--owner", true),
+    ("owner-escape", "options.owner", "s:--", true),
+    ("owner-lone-hyphen", "options.owner", "s:-", true),
+    ("owner-comma", "options.owner", "s:a,b", true),
+    ("owner-subcommand-word", "options.owner", "s:evm-custom", true),
+    ("owner-equals", "options.owner", "s:=x", true),
+    ("cache-dir-hyphen", "options.peers_args.bootstrap_cache_dir", "s:-cache", true),
+    ("url-hyphen", "options.peers_args.network_contacts_url", "l:-http://x/contacts", true),
+    ("url-comma-inside", "options.peers_args.network_contacts_url", "l:http://h/x?a=1%2C2", false),
+    ("url-only-comma", "options.peers_args.network_contacts_url", "l:%2C", false),
+    ("url-empty-element", "options.peers_args.network_contacts_url", "l:,http://h/x", true),
+    ("peer-comma-inside", "options.peers_args.addrs", "l:/dns4/a%2C/ip4/1.2.3.4/udp/1/quic-v1", false),
+];
+
+/// number of elements of a `Vec` field in the compact `{:#?}` dump (elements end with `,`; after clap's
+/// split no element contains one)
+fn dump_count(dump: &str, field: &str) -> String {
+    let Some(i) = dump.find(&format!("{field}:[")) else { return "?".into() };
+    let rest = &dump[i + field.len() + 2..];
+    let Some(j) = rest.find(']') else { return "?".into() };
+    rest[..j].matches(',').count().to_string()
+}
+
+fn dump_owner(dump: &str) -> String {
+    if dump.contains("owner:None,") {
+        return "-".into();
+    }
+    let Some(i) = dump.find("owner:Some(\"") else { return "?".into() };
+    let rest = &dump[i + "owner:Some(\"".len()..];
+    match rest.find("\",)") {
+        Some(j) => esc(&rest[..j]),
+        None => "?".into(),
+    }
+}
+
 /// the PeersArgs rules antctl's own parser enforces on its input
 fn antctl_can_produce(rec: &Rec) -> bool {
     let first = rec.flag("options.peers_args.first");
@@ -224,7 +297,7 @@ fn main() {
 
     let mut lines: Vec<String> = vec![];
     if let Some(p) = &args.replay {
-        lines = common::read_lines(p).into_iter().filter(|l| l.starts_with("accept ")).collect();
+        lines = common::read_lines(p).into_iter().filter(|l| l.starts_with("accept ") || l.starts_with("lexprobe ")).collect();
     } else {
         let all = (1u64 << N_BITS) - 1;
         let mut pats: Vec<(u64, u64)> = vec![(0, 0), (0, 1), (0, 2), (all & !(1 << 3), 2)];
@@ -256,6 +329,13 @@ fn main() {
             }
             lines.push(rec.line("accept"));
         }
+        // values that are not lex-safe, one per record, on a plain record of each EVM network
+        for (i, (_, key, val, _)) in LEX_PROBES.iter().enumerate() {
+            let mut rec = gen_record(0, i as u64, &mut rng);
+            rec.0.retain(|(k, _)| k != "@provided" && k != "@prev" && k != "@listen" && k != "@nat");
+            rec.set(key, *val);
+            lines.push(rec.line("lexprobe"));
+        }
     }
 
     for line in lines {
@@ -286,6 +366,46 @@ fn main() {
         let ua = argv(&b.upgrade);
         let ri = run(&bin, &ia, &root);
         let ru = run(&bin, &ua, &root);
+        if ws[0] == "lexprobe" {
+            let c = |r: &Run| if r.ok { "ok" } else { "rej" };
+            let details = if ri.ok {
+                format!("peers={} urls={} owner={}", dump_count(&ri.dump, "addrs"), dump_count(&ri.dump, "network_contacts_url"), dump_owner(&ri.dump))
+            } else {
+                "peers=- urls=- owner=-".to_string()
+            };
+            out.line(line.clone(), format!("I:{} U:{} {}", c(&ri), c(&ru), details));
+            let probe = LEX_PROBES.iter().find(|(_, k, v, _)| rec.get(k) == Some(*v));
+            let (family, producible) = probe.map(|p| (p.0, p.3)).unwrap_or(("replayed", true));
+            out.count(&format!("lexprobe:{family}:install-{}:upgrade-{}", c(&ri), c(&ru)));
+            out.nontrivial_case(&format!("lexprobe {family}"));
+            if ri.ok != ru.ok || (ri.ok && ri.dump != ru.dump) {
+                out.oracle_fail("upgrade-parses-like-install", &line, "antnode treats the regenerated strings differently from the installed ones");
+            }
+            if producible {
+                // a value antctl itself can be given (`--owner=-x`): rejected = known finding K-t-hyphen-value;
+                // accepted = must be interpreted as intended
+                for (which, r) in [("install", &ri), ("upgrade", &ru)] {
+                    if !r.ok {
+                        out.count(&format!("lexprobe:antctl-producible-value-rejected-by-antnode:{which}"));
+                        continue;
+                    }
+                    for frag in intended(&rec, &root, None) {
+                        if !r.dump.contains(&frag) {
+                            out.oracle_fail(
+                                &format!("{which}-lex-unsafe-value-silently-misparsed"),
+                                &line,
+                                &format!("antnode accepts {:?} but the parsed Opt lacks `{frag}`: {}", if which == "install" { ia.join(" ") } else { ua.join(" ") }, r.dump),
+                            );
+                            break;
+                        }
+                    }
+                }
+            } else if ri.ok {
+                // not producible through antctl's own parser (it splits at `,` first): observed only
+                out.count(&format!("lexprobe:{family}:observed-{}", details.replace(' ', ",")));
+            }
+            continue;
+        }
         out.line(line.clone(), format!("I:{} U:{}", ri.class, ru.class));
         out.count(&format!("install:{}", ri.class));
         out.count(&format!("upgrade:{}", ru.class));
@@ -305,6 +425,12 @@ fn main() {
             out.oracle_fail("antnode-accepts-upgrade", &line, &format!("antnode rejects the regenerated arguments {:?}: {}", ua.join(" "), ru.dump));
             continue;
         }
+        for (which, a) in [("install", &ia), ("upgrade", &ua)] {
+            if let Some(bad) = typed_value_violation(a) {
+                out.oracle_fail(&format!("{which}-typed-values-print-as-their-types"), &line, &format!("`{bad}`: a typed setting that does not start with a digit / is no LogFormat word"));
+            }
+        }
+        out.count("typed-values-checked");
         let listen = rec.some("@listen");
         for frag in intended(&rec, &root, None) {
             if !ri.dump.contains(&frag) {
